@@ -307,6 +307,9 @@ func (s *c25sink) Write(p []byte) (int, error) {
 		s.got = append(s.got, p...)
 		if i := bytes.Index(s.got, []byte("\r\n\r\n")); i >= 0 {
 			s.hdrEnd = i + 4
+			if s.failAfter >= 0 && len(s.got)-s.hdrEnd >= s.failAfter {
+				return len(p), errors.New("c25: peer went away")
+			}
 		}
 		return len(p), nil
 	}
@@ -681,6 +684,9 @@ func TestVerif_C25(t *testing.T) {
 		if f := os.Getenv("C25_BOUND"); f != "" {
 			fmt.Sscan(f, &bound)
 		}
+		if sc.bufSize == 0 {
+			sc.bufSize = 64
+		}
 		scs = append(scs, mcx.Scenario{Name: name, Cfg: mcrt.Config{Bound: bound, TimerFirst: true, Horizon: 8000}, Body: c25body(sc), Check: c25check(sc)})
 	}
 	const slow = 600 * time.Millisecond
@@ -727,9 +733,9 @@ func TestVerif_C25(t *testing.T) {
 	// transparent compression over an fs.FS: a compressible file is read, compressed into memory and its handle closed
 	// inside the handler call; an incompressible one is served (and cached under the gzip kind) like a plain file.
 	cz := map[string]int{"s.txt": 300, "r.txt": 300}
-	// (the stackless compressor adds a worker thread and many blocking hand-offs: the second request comes 700ms later)
-	add("iofs-compress/compressible/full+later-full", b-1, c25scn{fsKind: c25FSio, sizes: cz, compress: true, reqs: []c25req{{file: "s.txt"}, {file: "s.txt", start: 700 * time.Millisecond}}})
-	add("iofs-compress/incompressible/full+later-early", b-1, c25scn{fsKind: c25FSio, sizes: cz, compress: true, reqs: []c25req{{file: "r.txt"}, {file: "r.txt", kind: c25Early, failAfter: 150, start: 700 * time.Millisecond}}})
+	// (the stackless compressor adds a worker thread and dozens of blocking hand-offs: one request only, one bound step less)
+	add("iofs-compress/compressible/full", b-1, c25scn{fsKind: c25FSio, sizes: cz, compress: true, reqs: []c25req{{file: "s.txt"}}})
+	add("iofs-compress/incompressible/early", b-1, c25scn{fsKind: c25FSio, sizes: cz, compress: true, reqs: []c25req{{file: "r.txt", kind: c25Early, failAfter: 150}}})
 	r.Set("preemption_bound", fmt.Sprint(b))
 	mcx.Run(r, scs)
 }
